@@ -27,7 +27,7 @@ def pregen(check):
 
 CFG = {
     "id": "C08",
-    "lean_modules": ["GeomV.C08.Proofs", "GeomV.C08.ProofsConic", "GeomV.C08.ProofsTmerc", "GeomV.C08.ProofsGeodetic", "GeomV.C08.ProofsKrovak", "GeomV.C08.Ties"],
+    "lean_modules": ["GeomV.C08.Proofs", "GeomV.C08.ProofsConic", "GeomV.C08.ProofsTmerc", "GeomV.C08.ProofsGeodetic", "GeomV.C08.ProofsKrovak", "GeomV.C08.ProofsUnique", "GeomV.C08.Ties"],
     "pregen": pregen,
     "exe": "geomv_c08",
     "go_cmd": "c08",
@@ -39,7 +39,9 @@ CFG = {
         "C08_merc_ell_inv_of_converged", "C08_imlfn_fixed", "C08_imlfn_stationary", "C08_eqdc_inv_of_converged",
         "C08_tmerc_footpoint_fixed", "C08_aeaPhi1z_fixed", "C08_eqdc_sphere_inv", "C08_aea_sphere_inv",
         "C08_eqdc_sphere_inv_south", "C08_aea_sphere_inv_south", "lcc_chain", "C08_lcc_sphere_inv", "C08_lcc_inv_of_converged",
-        "aea_chain", "C08_aea_inv_of_converged", "C08_tmerc_sphere_inv", "C08_geodetic_fixed", "C08_geodetic_roundtrip_h0", "C08_krovak_lat_fixed"]] + [
+        "aea_chain", "C08_aea_inv_of_converged", "C08_tmerc_sphere_inv", "C08_geodetic_fixed", "C08_geodetic_roundtrip_h0", "C08_krovak_lat_fixed",
+        "logTs_strictAnti", "tsfnz_injective", "C08_phi2z_fixed_unique", "merc_chain", "C08_merc_ell_inv_exact", "C08_lcc_inv_exact",
+        "mlfn_strictMono", "C08_imlfn_fixed_unique"]] + [
         # tie T1: model = definitions regenerated from the current Go source (rfl)
         T + "Ties." + n for n in ["tie_initMerc", "tie_fwdMerc", "tie_invMerc", "tie_initLcc", "tie_fwdLcc", "tie_invLcc",
                                   "tie_initAea", "tie_fwdAea", "tie_invAea", "tie_aeaPhi1zStep", "tie_initEqdc", "tie_fwdEqdc",
